@@ -1603,6 +1603,10 @@ type TableLayoutConfig struct {
 
 // SetTableLayout 设置表格布局和定位
 func (t *Table) SetTableLayout(config *TableLayoutConfig) error {
+	if config == nil {
+		return fmt.Errorf("表格布局配置不能为空")
+	}
+
 	if t.Properties == nil {
 		t.Properties = &TableProperties{}
 	}
